@@ -334,6 +334,10 @@ def check_noop(case, ctx, h=None):
         # 201-operation limit does so earlier with the exec than without it - "neutral" is about the stacks, not about the budget
         ctx.count('noop-exec:operation-limit-reached')
         return
+    if ex.get('err') == R.ERR['STACK_SIZE'] and len(pre.get('st', [])) + len(pre.get('alt', [])) >= 998:
+        # the same for the 1000-item limit: a phrase that is neutral in the end still needs room for the one or two items it pushes on the way
+        ctx.count('noop-exec:stack-limit-reached')
+        return
     if not ex['acc']:
         if pre.get('done'):
             return
@@ -350,6 +354,53 @@ def w_noop(ctx, wid, seed, examples):
     core.hyp_campaign(ctx, 'exec-noop', noop_cases(), check_noop, examples, seed, noop_json)
 
 
+def check_repl(case, ctx):
+    """the command as the user types it: the same session in the real debugger on ptys - `step` k times, `exec <tokens>`, then `stack`, `altstack`, `vfexec` -
+    shows the state the harness reaches with Instance::eval (the command's own argument splitting and printing sit in between)"""
+    from .. import cli
+    from . import c12
+    sess, k, toks, pre = case
+    h = harness()
+    kw = dict(sess['kw'])
+    ecmd = lambda T: 'e:' + '+'.join(A.render(t).encode().hex() for t in T)
+    kw['cmds'] = ','.join(['s'] * k + ([ecmd(pre)] if pre else []) + [ecmd(toks)])
+    r = h.req(kvline('session', **kw))
+    if 'log' not in r:
+        return
+    if any(not e['acc'] for e in r['log'][:k]):
+        return
+    post = r['log'][-1]['d']
+    if post.get('tce'):
+        return
+    cmds = ['step'] * k + (['exec ' + ' '.join(A.render(t) for t in pre)] if pre else []) + ['exec ' + ' '.join(A.render(t) for t in toks), 'stack', 'altstack', 'vfexec']
+    rp = cli.Repl(c12.cli_args(sess))
+    blocks, err, status = rp.session(cmds, timeout=30)
+    cj = case_json(case)
+    ctx.case('repl' + repr(cj), True, dict(cj, layer='repl'), 'repl-exec:' + sess['kind'])
+    if status.startswith('died'):
+        raise Violation(case, 'btcdeb REPL died (%s) on exec %r' % (status, [A.render(t) for t in toks]), observed=err[-300:])
+    if status != 'ok':
+        ctx.inconclusive += 1
+        return
+    n = len(cmds)      # blocks[0] is the banner, blocks[i + 1] the output of command i
+    st_main, st_alt, st_vf = (c12.parse_stack(blocks[n - 2]), c12.parse_stack(blocks[n - 1]), c12.parse_stack(blocks[n]))
+    want_vf = ['01' if ch == '1' else '00' for ch in reversed(post['vf'])]
+    if st_main != list(reversed(post['st'])) or st_alt != list(reversed(post['alt'])) or st_vf != want_vf:
+        raise Violation(case, 'after `exec %s` the debugger shows stack %r / alt stack %r / conditions %r; the session state is %r / %r / %r (top first)' % (
+            ' '.join(A.render(t) for t in toks), st_main[:4], st_alt[:4], st_vf, list(reversed(post['st']))[:4], list(reversed(post['alt']))[:4], want_vf),
+                        observed=[st_main[:6], st_alt[:6], st_vf], expected=[list(reversed(post['st']))[:6], list(reversed(post['alt']))[:6], want_vf])
+
+
+@st.composite
+def repl_cases(draw):
+    sess = draw(st.one_of(SS.plain('ctrl', short=True), SS.plain('altstack', short=True), SS.plain('mixed', short=True), SS.plain('arith', short=True)))
+    return (sess, draw(st.integers(0, 6)), draw(st.lists(token(), min_size=1, max_size=6)), None)
+
+
+def w_repl(ctx, wid, seed, examples):
+    core.hyp_campaign(ctx, 'exec-through-the-repl', repl_cases(), check_repl, examples, seed, case_json)
+
+
 def w_limits(ctx, wid, seed, examples):
     core.hyp_campaign(ctx, 'exec-at-limits', limit_cases(), check_case, examples, seed, case_json)
 
@@ -360,13 +411,16 @@ def w_exec(ctx, wid, seed, examples):
 
 def run(tier, t0):
     n = 1500 if tier == 'quick' else 40000
-    m = core.parallel(PID, [(w_exec, dict(examples=n)) for _ in range(core.WORKERS)] + [(w_noop, dict(examples=n // 3)) for _ in range(max(2, core.WORKERS // 4))] + [(w_limits, dict(examples=n // 4)) for _ in range(2)])
+    m = core.parallel(PID, [(w_exec, dict(examples=n)) for _ in range(core.WORKERS)] + [(w_noop, dict(examples=n // 3)) for _ in range(max(2, core.WORKERS // 4))] + [(w_limits, dict(examples=n // 4)) for _ in range(2)] + [(w_repl, dict(examples=max(25, n // 60))) for _ in range(2)])
     return core.finish(PID, tier, m, RULE, t0, min_nontrivial=1000 if tier == 'quick' else 50000,
                        assumptions=['reference interpreter (vf/ref/script.py) on the pre-state read from the harness dump', 'token grammar of Instance::eval: opcode names, non-zero canonical decimals, bare even-length hex; a hex token means the minimal-form push of those bytes'])
 
 
 def replay(rec):
     try:
+        if rec.get('campaign') == 'exec-through-the-repl':
+            check_repl(case_from_json(rec['case']), core.Ctx(PID))
+            return True, 'ok'
         if rec.get('campaign') == 'exec-noop':
             check_noop(noop_from_json(rec['case']), core.Ctx(PID))
             return True, 'ok'
